@@ -130,10 +130,16 @@ func (r *gatewayController) buildDesiredHTTPRoute(rules []gatewayv1beta1.HTTPRou
 	// Only when finalize method parameter weight=-1,
 	// then we need to remove the canary route policy and restore to the original configuration
 	if weight != nil && *weight == -1 {
+		// without a separate canary Service (disableGenerateCanaryService, TrafficRouting resources) the "canary"
+		// backend IS the stable one: filtering it out would strip the user's own rules of their backend and drop them
+		sameService := r.conf.CanaryService == r.conf.StableService
 		for i := range rules {
 			rule := rules[i]
-			_, canaryRef := getServiceBackendRef(rule, r.conf.Namespace, r.conf.CanaryService)
-			filterOutServiceBackendRef(&rule, r.conf.Namespace, r.conf.CanaryService)
+			var canaryRef *gatewayv1beta1.HTTPBackendRef
+			if !sameService {
+				_, canaryRef = getServiceBackendRef(rule, r.conf.Namespace, r.conf.CanaryService)
+				filterOutServiceBackendRef(&rule, r.conf.Namespace, r.conf.CanaryService)
+			}
 			_, stableRef := getServiceBackendRef(rule, r.conf.Namespace, r.conf.StableService)
 			if stableRef != nil {
 				stableRef.Weight = utilpointer.Int32(1)
